@@ -39,8 +39,33 @@ MANIFEST = {
 }
 
 
-class Emit(Exception):
+class NeedChoice(Exception):
     pass
+
+
+def run_all(body, facts):
+    """-> list of (free choices, emitted calls) over every valuation of the
+    tests that are not write-state facts"""
+    results = []
+    todo = [dict(facts)]
+    while todo:
+        cur = todo.pop()
+        out = []
+        try:
+            run_block(body, cur, {}, out)
+        except NeedChoice as need:
+            if len([k for k in cur if str(k).startswith("?")]) > 6:
+                raise AnalysisError("halo marking: too many unmodelled "
+                                    "tests")
+            for val in (False, True):
+                nxt = dict(cur)
+                nxt[need.args[0]] = val
+                todo.append(nxt)
+            continue
+        extra = {k[1:]: v for k, v in cur.items()
+                 if str(k).startswith("?")}
+        results.append((extra, out))
+    return results
 
 
 def run_block(stmts, facts, env, out, per_component=False):
@@ -126,8 +151,10 @@ def cond(test, facts, env):
         return all(vals) if isinstance(test.op, ast.And) else any(vals)
     if isinstance(test, ast.UnaryOp) and isinstance(test.op, ast.Not):
         return not cond(test.operand, facts, env)
-    raise AnalysisError(f"halo marking tests '{txt}', which is not one of "
-                        f"the write-state facts")
+    key = "?" + txt
+    if key not in facts:
+        raise NeedChoice(key)    # a free boolean: both values are explored
+    return facts[key]
 
 
 def eval_outer(node, disc, space, halo):
@@ -223,44 +250,53 @@ def check(idx, run):
             continue   # a literal depth excludes the maximum-depth flag
         ncomb += 1
         facts = {"max": mx, "lit": lit, "outer": outer, "vector": vector}
-        out = []
-        run_block(body, facts, {}, out)
-        kinds = [k for k, _pc in out]
-        dirty = any(k[0] == "dirty" for k in kinds)
-        cleans = [k for k in kinds if k[0] == "clean"]
-        want_dirty = (not mx) or outer
-        detail = f"max_depth={mx} literal_depth={lit} dirty_outer={outer} " \
-                 f"vector={vector}"
-        run.check("C22.R1", dirty == want_dirty, cons,
-                  f"set_dirty [{detail}]",
-                  f"with {detail} set_dirty() is "
-                  f"{'emitted' if dirty else 'not emitted'}; the halo must "
-                  f"be marked dirty unless the loop computed the whole halo "
-                  f"with a clean outer level", loc(mod, loop),
-                  sample={"rule": "C22.R1", "state": facts,
-                          "calls": [str(k) for k in kinds],
-                          "ok": dirty == want_dirty})
-        # clean depth
-        if lit:
-            want = lit - (1 if outer else 0)
-            ok = (len(cleans) == (1 if want > 0 else 0)) and all(
-                c[1] == "L" and lit + c[2] == want for c in cleans)
-        elif mx:
-            ok = len(cleans) == 1 and cleans[0][1] == "MAX" and \
-                cleans[0][2] == (-1 if outer else 0)
-        else:
-            ok = not cleans
-        run.check("C22.R1", ok, cons, f"set_clean depth [{detail}]",
-                  f"with {detail} the clean marking is {cleans}; the "
-                  f"recorded clean depth must be the computed depth minus "
-                  f"one when the outer level holds partial sums, and "
-                  f"nothing may be marked clean when no halo was computed",
-                  loc(mod, loop))
-        # vector fields: every call inside the component loop
-        run.check("C22.R1", all(pc == vector for _k, pc in out), cons,
-                  f"same calls for every vector component [{detail}]",
-                  "a vector field is not marked component by component "
-                  "(or a scalar field is)", loc(mod, loop))
+        for extra, out in run_all(body, facts):
+            kinds = [k for k, _pc in out]
+            dirty = any(k[0] == "dirty" for k in kinds)
+            cleans = [k for k in kinds if k[0] == "clean"]
+            want_dirty = (not mx) or outer
+            detail = f"max_depth={mx} literal_depth={lit} dirty_outer={outer} " \
+                     f"vector={vector}" + (f" {extra}" if extra else "")
+            # the property bounds the recorded state from one side only:
+            # marking dirty more often, or clean less deep, is safe
+            run.check("C22.R1", dirty or not want_dirty, cons,
+                      f"set_dirty [{detail}]",
+                      f"with {detail} set_dirty() is not emitted; the halo "
+                      f"must be marked dirty unless the loop computed the "
+                      f"whole halo with a clean outer level", loc(mod, loop),
+                      sample={"rule": "C22.R1", "state": facts,
+                              "calls": [str(k) for k in kinds],
+                              "ok": dirty or not want_dirty})
+            # clean depth
+            if lit:
+                ok = all(c[1] == "L" and 0 < lit + c[2] <=
+                         lit - (1 if outer else 0) for c in cleans)
+            elif mx:
+                ok = all(c[1] == "MAX" and c[2] <= (-1 if outer else 0)
+                         for c in cleans)
+            else:
+                ok = not cleans
+            run.check("C22.R1", ok, cons, f"set_clean depth [{detail}]",
+                      f"with {detail} the clean marking is {cleans}; the "
+                      f"recorded clean depth must not exceed the computed "
+                      f"depth minus one when the outer level holds partial "
+                      f"sums, and nothing may be marked clean when no halo "
+                      f"was computed", loc(mod, loop))
+            # a clean marking must follow the dirty marking
+            order = [k[0] for k in kinds if k[0] in ("dirty", "clean")]
+            run.check("C22.R1", "dirty" not in order[order.index("clean"):]
+                      if "clean" in order else True, cons,
+                      f"set_clean after set_dirty [{detail}]",
+                      "set_dirty() is emitted after set_clean(): the halo "
+                      "computed redundantly is marked dirty again (safe) - "
+                      "or, read the other way, the order no longer says what "
+                      "is clean", loc(mod, loop))
+            # vector fields: every component must be marked dirty
+            run.check("C22.R1", all(pc == vector for k, pc in out
+                                    if k[0] == "dirty"), cons,
+                      f"every vector component marked dirty [{detail}]",
+                      "a vector field is not marked dirty component by "
+                      "component (or a scalar field is)", loc(mod, loop))
     run.floor("write-state combinations", ncomb, 16)
     # R2 write info
     hcls = idx.get_class("psyclone.dynamo0p3.HaloWriteAccess")
